@@ -25,7 +25,7 @@ def v_tree(node):
     from pddl_plus_parser.models import PDDLFunction
     if len(node.children) == 0:
         if isinstance(node.value, PDDLFunction):
-            return ("fl", node.value.name, tuple(node.value.signature.keys()))
+            return ("fl",) + v_fluent_key(node.value)
         return ("num", float(node.value))
     if len(node.children) != 2:
         return ("bad-arity", node.value, len(node.children))
